@@ -94,7 +94,7 @@ func genCase(t *rapid.T) Case {
 	n := rapid.IntRange(2, 20).Draw(t, "nops")
 	dests := append(append([]string{"stdout", "stdout"}, files...), cmds...)
 	for i := 0; i < n; i++ {
-		k := rapid.SampledFrom([]string{"out", "out", "out", "out", "close", "close", "fflush", "fflushall", "system-echo", "system-exit", "system-size", "pipe-exit3"}).Draw(t, "kind")
+		k := rapid.SampledFrom([]string{"out", "out", "out", "out", "close", "close", "fflush", "fflushall", "system-echo", "system-exit", "system-size", "pipe-exit3", "mixed-file-first", "mixed-cmd-first"}).Draw(t, "kind")
 		op := Op{Kind: k}
 		switch k {
 		case "out":
@@ -254,6 +254,19 @@ func build(c Case) *model {
 			// close() still has to report the command's exit status (the failed flush is reported on stderr)
 			fmt.Fprintf(&body, "  print \"L%d-lost\" | \"exit 3 # %d\"; system(\"sleep 0.05\"); r = close(\"exit 3 # %d\"); print \"R%d close \" r\n", k, k, k, k)
 			emitOwn(k, fmt.Sprintf("R%d close 3", k))
+		case "mixed-file-first":
+			// one name denotes one open stream until close(): opened with > it stays that file, whatever redirection
+			// operator later statements use with the same name
+			name := fmt.Sprintf("(D \"/y%d\")", k)
+			fmt.Fprintf(&body, "  print \"L%d-a\" > %s; print \"L%d-b\" | %s; printf \"L%d-c\\n\" >> %s; r = close(%s); print \"R%d close \" r\n", k, name, k, name, k, name, name, k)
+			m.files[fmt.Sprintf("y%d", k)] = fmt.Sprintf("L%d-a\nL%d-b\nL%d-c\n", k, k, k)
+			emitOwn(k, fmt.Sprintf("R%d close 0", k))
+		case "mixed-cmd-first":
+			// ... and opened with | it stays that command
+			name := fmt.Sprintf("(\"cat >> \" D \"/pk%d\")", k)
+			fmt.Fprintf(&body, "  print \"L%d-a\" | %s; print \"L%d-b\" > %s; printf \"L%d-c\\n\" >> %s; r = close(%s); print \"R%d close \" r\n", k, name, k, name, k, name, name, k)
+			m.files[fmt.Sprintf("pk%d", k)] = fmt.Sprintf("L%d-a\nL%d-b\nL%d-c\n", k, k, k)
+			emitOwn(k, fmt.Sprintf("R%d close 0", k))
 		case "system-exit":
 			fmt.Fprintf(&body, "  r = system(\"exit 3\"); print \"R%d system \" r\n", k)
 			emitOwn(k, fmt.Sprintf("R%d system 3", k))
